@@ -226,6 +226,8 @@ pub struct Gen<'a> {
     in_param_default: bool,
     /// nesting depth of `finally` blocks in the current function (F17 exclusion)
     in_finally: usize,
+    /// the program pushes thunks to `__caps` (block-scoped bindings captured by closures)
+    uses_caps: bool,
 }
 
 const INTS: &[&str] = &["0", "1", "2", "3", "7", "-1", "10", "255", "2147483647", "-2147483648", "4294967295", "0.5", "-0", "1e21", "1e-7", "9007199254740993", "NaN", "Infinity", "1.5", "100", "31", "32", "-5"];
@@ -254,6 +256,7 @@ impl<'a> Gen<'a> {
             in_switch_case: false,
             in_param_default: false,
             in_finally: 0,
+            uses_caps: false,
         }
     }
 
@@ -801,6 +804,37 @@ impl<'a> Gen<'a> {
         out.push_str(&format!("{kw} {name} = {e};\n"));
         self.declare(&name, kind, ty);
         self.kinds.insert(kw);
+    }
+
+    /// a block-scoped binding captured by a closure that outlives the block: the thunk is kept in
+    /// `__caps` and called at the very end of the program, so a binding that lands in the wrong
+    /// environment (abrupt exits through loops / finally / labelled blocks) shows in the trace.
+    /// No call and no try/catch here, so the template is also allowed inside `finally` blocks.
+    fn stmt_capture(&mut self, out: &mut String) {
+        self.label("capture");
+        self.kinds.insert("capture");
+        self.uses_caps = true;
+        let ty = self.pick_decl_type();
+        let kind = *self.t.pick(&[Kind::Let, Kind::Let, Kind::Const]);
+        let name = self.fresh("z");
+        let e = self.typed(ty, 2);
+        let kw = if kind == Kind::Const { "const" } else { "let" };
+        out.push_str(&format!("{kw} {name} = {e};\n"));
+        self.declare(&name, kind, ty);
+        self.kinds.insert(kw);
+        match self.t.below(3) {
+            0 => out.push_str(&format!("__caps.push(() => {name});\n")),
+            1 => out.push_str(&format!("__caps.push(function () {{ return {name}; }});\n")),
+            _ => {
+                let others: Vec<String> = self.vars().filter(|v| !matches!(v.kind, Kind::Func | Kind::Class) && v.name != name).map(|v| v.name.clone()).collect();
+                if others.is_empty() {
+                    out.push_str(&format!("__caps.push(() => [{name}]);\n"));
+                } else {
+                    let w = self.t.pick(&others).clone();
+                    out.push_str(&format!("__caps.push(() => [{name}, {w}]);\n"));
+                }
+            }
+        }
     }
 
     fn stmt_print(&mut self, out: &mut String) {
@@ -1742,6 +1776,7 @@ impl<'a> Gen<'a> {
             o.w_collections,     // Map/Set/array methods
             4,                   // return/throw
             o.w_destructure,     // custom iterables (iterator protocol, closing)
+            o.w_closure / 2,     // captured block-scoped binding (thunk called at program end)
         ];
         let mut choice = self.t.weighted(&weights);
         if self.in_finally > 0 && self.o.excl_f17_catch_in_finally && matches!(choice, 6 | 9 | 11 | 16 | 7 | 8 | 19) {
@@ -1771,6 +1806,7 @@ impl<'a> Gen<'a> {
             16 => self.stmt_literal_expr(out),
             17 => self.stmt_collections(out),
             19 => self.stmt_iterable(out),
+            20 => self.stmt_capture(out),
             _ => self.stmt_return_or_throw(out),
         }
     }
@@ -1793,6 +1829,9 @@ impl<'a> Gen<'a> {
             src.push_str("'use strict';\n");
         }
         src.push_str(PRELUDE);
+        if self.uses_caps {
+            src.push_str("var __caps = [];\n");
+        }
         if self.o.in_main {
             src.push_str("function main() {\n");
             src.push_str(&body);
@@ -1802,6 +1841,11 @@ impl<'a> Gen<'a> {
             }
         } else {
             src.push_str(&body);
+        }
+        if self.uses_caps && !(self.o.in_main && self.o.no_call) {
+            src.push_str("for (var __i = 0; __i < __caps.length; __i++) print(show(__caps[__i]()));\n");
+        }
+        if !self.o.in_main {
             src.push_str(&format!("{tail};\n"));
         }
         Program { src, labels: self.labels, stmt_kinds: self.kinds.len(), excluded: self.excluded, strict: self.strict }
